@@ -51,7 +51,10 @@ ExternalDenom(s, t, d) ==
 C15StepChecks(k, e, s, t, g) ==
   LET ds == AllDenoms(s) \cup AllDenoms(t)
       \* explicit burns: the burner module destroys whatever sits at the zero address (the burn address) at its epoch end
-      BurnedFromZero(d) == k \in {"Begin", "End"} /\ DSupply(s, t, d) \prec Zero /\ DSupply(s, t, d) = DBal(s, t, "zero", d)
+      \* - but only of denoms that genesis / governance listed for burning (s.burner.listed: the denoms the scene registered bank
+      \* metadata for); an external asset that became burnable through protocol operation is destroyed, not "explicitly burned"
+      Listed(d) == ("burner" \notin DOMAIN s) \/ ("listed" \notin DOMAIN s.burner) \/ (\E i \in DOMAIN s.burner.listed : s.burner.listed[i] = d)
+      BurnedFromZero(d) == k \in {"Begin", "End"} /\ DSupply(s, t, d) \prec Zero /\ DSupply(s, t, d) = DBal(s, t, "zero", d) /\ Listed(d)
       badExt == {d \in ds : ExternalDenom(s, t, d) /\ Supply(t, d) # Supply(s, d) /\ ~BurnedFromZero(d)}
       dE == DSupply(s, t, "uelys")
       release == k = "Tx" /\ e.ok /\ e.name \in {"commitment.MsgClaimVesting", "commitment.MsgVestNow"}
